@@ -103,7 +103,7 @@ def acyclicity_establishers(ctx, L):
     model = ctx.py.mod('prophyc.model')
     ts = model.func('topological_sort')
     model_guard = False
-    loop_idx = [i for i, st in enumerate(ts.node.body) if isinstance(st, ast.For)]
+    loop_idx = [i for i, st in enumerate(ts.node.body) if isinstance(st, ast.For) and any(isinstance(x, ast.While) for x in ast.walk(st))]
     for i, st in enumerate(ts.node.body):
         if isinstance(st, ast.Expr) and isinstance(st.value, ast.Call) and isinstance(st.value.func, ast.Name) \
                 and loop_idx and i < loop_idx[0] and model.has_func(st.value.func.id):
